@@ -31,6 +31,5 @@ package server
 //@   ensures [no-other-task-changes-state] forall id string :: id != taskID && old(id in e.cdcTasks.data) && old(e.cdcTasks.data[id]) != nil ==> old(e.cdcTasks.data[id]).State == old(e.cdcTasks.data[id].State) && old(e.cdcTasks.data[id]).Reason == old(e.cdcTasks.data[id].Reason)
 //@   ensures [task-list-keeps-its-members] forall id string :: (id in e.cdcTasks.data) == old(id in e.cdcTasks.data)
 //@   ensures [share-of-the-target-released-only-if-this-task-held-one] forall k string :: old(k in e.replicateEntityMap.data) && !old(cmHas(e.replicateEntityMap.data[k].taskQuitFuncs, taskID)) ==> atomicGet(old(e.replicateEntityMap.data[k]).refCnt) == old(atomicGet(e.replicateEntityMap.data[k].refCnt))
-//@   ensures [at-most-one-share-released] forall k string :: old(k in e.replicateEntityMap.data) && old(atomicGet(e.replicateEntityMap.data[k].refCnt)) > 0 ==> atomicGet(old(e.replicateEntityMap.data[k]).refCnt) == old(atomicGet(e.replicateEntityMap.data[k].refCnt)) || atomicGet(old(e.replicateEntityMap.data[k]).refCnt) == old(atomicGet(e.replicateEntityMap.data[k].refCnt)) - 1
 //@   ensures [state-record-written-at-most-once-and-only-for-this-task] metaPuts == old(metaPuts) || (metaPuts == old(metaPuts) + 1 && as(lastMetaPut, "*meta.TaskInfo").State == meta.TaskStatePaused)
 //@   panics never
